@@ -1,56 +1,21 @@
 /-
 Line-protocol driver: one request per line on stdin, one reply per line on stdout.
 Imports only Mathlib-free model files, so it links as a native executable.
+Each property contributes a handler `BeyondVerif.Drv.Cxx.handle : List String → Option String`.
 -/
-import BeyondVerif.Model.Node
+import BeyondVerif.Drv.C20
+import BeyondVerif.Drv.C16
 
 open BeyondVerif
 
-namespace Drv
-
-def parseNat? (s : String) : Option Nat := s.toNat?
-
-/-- "a-b" -/
-def parseEdge? (s : String) : Option (Nat × Nat) :=
-  match s.splitOn "-" with
-  | [a, b] => do let a ← a.toNat?; let b ← b.toNat?; pure (a, b)
-  | _ => none
-
-def joinWith (sep : String) (xs : List String) : String := sep.intercalate xs
-
-def sortNat (xs : List Nat) : List Nat := (xs.toArray.qsort (· < ·)).toList
-
-/-- `node <n> <a-b> …` : build nodes 0..n-1, apply the links in order, dump all tables and all paths -/
-def nodeOp (args : List String) : String :=
-  match args with
-  | n :: es =>
-    match n.toNat?, es.mapM parseEdge? with
-    | some n, some es =>
-      let fuel := n + 2
-      let g := es.foldl (fun og (e : Nat × Nat) => og.bind (fun g => Node.link fuel g e.1 e.2)) (some ([] : Node.Graph))
-      match g with
-      | none => "fuel"
-      | some g =>
-        let nodes := List.range n
-        let tabs := nodes.map (fun u =>
-          let rs := (Node.get g u).routes
-          let rs := rs.toArray.qsort (fun a b => a.target < b.target) |>.toList
-          s!"{u}:" ++ joinWith "," (rs.map (fun r => s!"{r.target}>{r.dir}/{r.steps}")))
-        let nb := nodes.map (fun u => s!"{u}:" ++ joinWith "," ((Node.get g u).nbrs.map toString))
-        let paths := nodes.flatMap (fun s => nodes.map (fun t =>
-          match Node.path (n + 2) g s t with
-          | .ok p => joinWith "." (p.map toString)
-          | .unknown => "U"
-          | .keyError => "K"
-          | .loop => "L"))
-        "N " ++ joinWith ";" nb ++ " R " ++ joinWith ";" tabs ++ " P " ++ joinWith ";" paths
-    | _, _ => "bad-op"
-  | _ => "bad-op"
+def handlers : List (List String → Option String) :=
+  [Drv.C20.handle, Drv.C16.handle]
 
 def dispatch (line : String) : String :=
-  match (line.trimAscii.toString.splitOn " ").filter (· ≠ "") with
-  | "node" :: args => nodeOp args
-  | _ => "bad-op"
+  let toks := (line.trimAscii.toString.splitOn " ").filter (· ≠ "")
+  match handlers.findSome? (fun h => h toks) with
+  | some r => r
+  | none => "bad-op"
 
 partial def loop (h : IO.FS.Stream) (out : IO.FS.Stream) : IO Unit := do
   let line ← h.getLine
@@ -58,9 +23,7 @@ partial def loop (h : IO.FS.Stream) (out : IO.FS.Stream) : IO Unit := do
   out.putStrLn (dispatch line)
   loop h out
 
-end Drv
-
 def main : IO Unit := do
   let out ← IO.getStdout
-  Drv.loop (← IO.getStdin) out
+  loop (← IO.getStdin) out
   out.flush
